@@ -484,3 +484,110 @@ def layout(ps):
 
 
 PH = '[\ue000-\uf8ff]'
+
+
+# ------------------------------------------------------------------------------------------------ constants of a class body
+class NotConstant(Exception):
+    pass
+
+
+_BINOPS = {ast.Add: lambda a, b: a + b, ast.Sub: lambda a, b: a - b, ast.Mult: lambda a, b: a * b, ast.FloorDiv: lambda a, b: a // b,
+           ast.Mod: lambda a, b: a % b, ast.LShift: lambda a, b: a << b, ast.RShift: lambda a, b: a >> b, ast.BitOr: lambda a, b: a | b,
+           ast.BitAnd: lambda a, b: a & b, ast.BitXor: lambda a, b: a ^ b}
+
+
+def const_eval(node, env=None, owners=()):
+    """Value of a closed literal expression (ints, str, bytes, tuples, ranges; bytes()/bytearray()/range()/len()/chr()/ord()/
+    str.encode()), by the checker's own evaluator.  `env` maps names (and, for attribute reads on a name in `owners`, attribute names)
+    to values.  Raises NotConstant."""
+    env = env or {}
+    if isinstance(node, ast.Constant):
+        return node.value
+    if isinstance(node, ast.Name):
+        if node.id in env:
+            return env[node.id]
+        raise NotConstant(node.id)
+    if isinstance(node, ast.Attribute) and isinstance(node.value, ast.Name) and node.value.id in owners and node.attr in env:
+        return env[node.attr]
+    if isinstance(node, (ast.Tuple, ast.List)):
+        return tuple(const_eval(e, env, owners) for e in node.elts)
+    if isinstance(node, ast.UnaryOp) and isinstance(node.op, (ast.USub, ast.Invert, ast.UAdd)):
+        v = const_eval(node.operand, env, owners)
+        if type(v) is not int:
+            raise NotConstant('unary')
+        return -v if isinstance(node.op, ast.USub) else ~v if isinstance(node.op, ast.Invert) else v
+    if isinstance(node, ast.BinOp) and type(node.op) in _BINOPS:
+        a, b = const_eval(node.left, env, owners), const_eval(node.right, env, owners)
+        try:
+            r = _BINOPS[type(node.op)](a, b)
+        except Exception:
+            raise NotConstant('binop')
+        if isinstance(r, (bytes, str, tuple)) and len(r) > 100000:
+            raise NotConstant('too large')
+        return r
+    if isinstance(node, ast.Call) and not node.keywords:
+        fn = ast.unparse(node.func)
+        args = [const_eval(a, env, owners) for a in node.args]
+        try:
+            if fn == 'C' and len(args) == 1 and isinstance(args[0], str):
+                return bytes.fromhex(args[0])
+            if fn == 'range' and 1 <= len(args) <= 3 and all(type(a) is int for a in args) and len(range(*args)) <= 100000:
+                return tuple(range(*args))
+            if fn in ('bytes', 'bytearray') and len(args) == 1 and isinstance(args[0], (bytes, bytearray, tuple)):
+                return bytes(args[0])
+            if fn in ('tuple', 'list', 'sorted') and len(args) == 1 and isinstance(args[0], (tuple, bytes, str)):
+                return tuple(sorted(args[0])) if fn == 'sorted' else tuple(args[0])
+            if fn == 'len' and len(args) == 1 and isinstance(args[0], (tuple, bytes, str)):
+                return len(args[0])
+            if fn == 'chr' and len(args) == 1 and type(args[0]) is int:
+                return chr(args[0])
+            if fn == 'ord' and len(args) == 1 and isinstance(args[0], str) and len(args[0]) == 1:
+                return ord(args[0])
+        except (ValueError, TypeError, OverflowError):
+            raise NotConstant(fn)
+        if isinstance(node.func, ast.Attribute) and node.func.attr == 'encode' and len(args) <= 1:
+            recv = const_eval(node.func.value, env, owners)
+            if isinstance(recv, str):
+                try:
+                    return recv.encode(*args)
+                except Exception:
+                    raise NotConstant('encode')
+        if isinstance(node.func, ast.Attribute) and node.func.attr == 'join' and len(args) == 1 and isinstance(args[0], tuple):
+            recv = const_eval(node.func.value, env, owners)
+            try:
+                return recv.join(args[0])
+            except Exception:
+                raise NotConstant('join')
+    raise NotConstant(type(node).__name__)
+
+
+def class_constants(ci):
+    """{attribute name: value} of the class-level assignments of a class (and its bases) that are closed literal expressions,
+    later ones may refer to earlier ones."""
+    env = {}
+    for c in reversed(ci.mro()):
+        for _ in range(3):
+            for name, node in getattr(c, 'attrs', {}).items():
+                if name in env:
+                    continue
+                try:
+                    env[name] = const_eval(node, env, owners=(c.name,))
+                except NotConstant:
+                    pass
+    return env
+
+
+def subst_class_constants(node, env, owners):
+    """The term with reads of known class constants (self.NAME / Class.NAME) replaced by their values (ints, str, bytes as C('hex'))."""
+    class S(ast.NodeTransformer):
+        def visit_Attribute(self, n):
+            self.generic_visit(n)
+            if isinstance(n.value, ast.Name) and n.value.id in owners and n.attr in env and isinstance(env[n.attr], (int, str, bytes)) and \
+                    not isinstance(env[n.attr], bool):
+                v = env[n.attr]
+                if isinstance(v, bytes):
+                    return ast.Call(func=ast.Name(id='C', ctx=ast.Load()), args=[ast.Constant(value=v.hex())], keywords=[])
+                return ast.Constant(value=v)
+            return n
+    import copy
+    return S().visit(copy.deepcopy(node))
